@@ -65,7 +65,7 @@ func TestC13(t *testing.T) {
 			g.TargetRemovalPct = 30
 			g.DeadFilterTargets = true
 		},
-		Rule: "histories over everything (several targets and tables per relation node, registered filters, Reset, batch operations, events); run A executes the history on a fresh world and records a trace per op: returned handles, counts, the iteration order of scripted queries, of Query(All()) and of every registered filter, the event sequence with content, DumpEntities and the digest of the hidden state; run B executes the same ops on a second fresh world with GC percent 25 and runtime.GC() forced before generated ops; the traces must be identical step by step; the thorough tier additionally runs the same seeds in 3 separate OS processes (different hash seeds, different addresses) and compares the digests of all traces; non-trivial = >= 3 tables in one relation node at some point and a registered filter in the history",
+		Rule: "histories over everything (several targets and tables per relation node, registered filters, Reset, batch operations, events); run A executes the history on a fresh world and records a trace per op: returned handles, counts, the iteration order of scripted queries, of Query(All()) and of every registered filter, the event sequence with content, DumpEntities and the digest of the hidden state; run B executes the same ops on a second fresh world with GC percent 25 and runtime.GC() forced before generated ops; the traces must be identical step by step; both tiers additionally run the same seeds in 2 (quick) or 3 (thorough) separate OS processes (different hash seeds, different addresses, GOGC=100 / 5 / off, GOMAXPROCS default / 1 / 4) and compares the digests of all traces; non-trivial = >= 3 tables in one relation node at some point and a registered filter in the history",
 		Observe: func(tr *tracker, op *core.Op) {
 			active, _, _ := core.TableCounts(tr.sim.B.W)
 			if active >= 3 || (active < 0 && len(tr.sim.DeadTargets) > 0) {
